@@ -22,7 +22,7 @@ def run(tier, seed):
     args = ["-heal", "-nobyz", "-faultfree", 5, "-suffix", 16] + (["-runs", 40, "-steps", 120] if tier == "quick" else ["-runs", 800, "-steps", 300])
     # the scenario library, one batch per scenario: a leader that is cut off in every other view of a stretch it leads and then
     # falls silent (its certificates are known to the others only from its late proposals); a lagging leader-to-be
-    k = 12 if tier == "quick" else 150      # (the whole trace is held in memory by the judge: 800 + 5 x 150 runs stay well inside the machine)
+    k = 12 if tier == "quick" else 150
     more = [["-heal", "-nobyz", "-suffix", 16, "-only", "late-leader", "-runs", k, "-steps", 200],
             ["-heal", "-nobyz", "-suffix", 16, "-only", "laggard", "-runs", k, "-steps", 150],
             # clients with a small window of outstanding commands (batch size 2) that fall silent for a few view timers inside the
